@@ -397,6 +397,9 @@ class World:
         if self.solver.get("tol") == "tight":
             kw["rtol"] = 1e-10
             kw["atol"] = 1e-12
+        elif self.solver.get("tol") == "ultra":
+            kw["rtol"] = 1e-12
+            kw["atol"] = 1e-14
         fs = self.solver.get("first_step")
         if fs is not None:
             kw["first_step_frac"] = fs
